@@ -20,6 +20,7 @@ LEVEL = {
  "C15": ("model_checking", "TableEvents (TLC): clip lemmas over a grid (inside unchanged, outside into the band, band widened by one tick after rounding). TraceEvents (TLC): every acceptance on recorded runs with price limit rules - accepted price = tick rounding of the clipped request on targets (reference = the market's time-0 price as read when the hook runs), unchanged on non-targets, market orders unchanged, trades inside the widened band, a rejected non-target order is a violation.", "5 C15"),
  "C16": ("model_checking", "PamsHalt (TLC): the state machine of the repaired rule for several rules / targets / sessions satisfies NoFillWithoutExec, NoCrash, HaltRespected, Resumed, SwitchRestored, StoppedOnlyByHalt; the as-found design is kept as a configuration that TLC must reject. TraceEvents (TLC) predicts from the reported fills when each target market must stop and resume and compares Market.is_running and the session switch at every step begin / end and acceptance; TraceBook: no fill on a market that is not running.", "5 C16"),
  "C17": ("model_checking", "TableEvents (TLC): weighted-sum lemmas. TraceEvents (TLC): at every step begin / end the index value cross-multiplied with the share total equals the share-weighted sum of the component market prices, and at every clock step the index fundamental equals the weighted component fundamentals for the new time (exact configurations; a harness side condition with relative 1e-12 covers the float division).", "5 C17"),
+ "C18": ("model_checking", "PamsConfig transcribes the expansion rules as pure operators; TableConfig (TLC) checks the lemmas of Extend on EVERY inheritance graph over three names, a missing parent and two keys (72000 cases: chains, self / 2 / 3-cycles, missing parents, excluded keys). The same grids are run through the real json_extends, SequentialRunner._setup (counts, inclusive ranges incl. length 1 and 2, prefixes, inheritance, accessible markets), Session.setup (legacy keys), JsonRandom (every value shape, exact values with a stub generator, support with the real one) and find_class (built-in, registered, duplicate, unknown names); TraceConfig (TLC) compares every recorded outcome with the model.", "5 C18"),
 }
 NOTE = {
  "C01": "Trusted: TLC, the Json module, the probes (harness/book_session.py) that project floats to integer units exactly (dyadic ticks) or by rounding (decimal ticks). Bounds: design model constants in spec/MC_PamsMarket_*.cfg; histories of 30-120 operations.",
@@ -42,6 +43,7 @@ TECH = {
  "C15": "TLA+ clip lemmas (TLC) + TLC trace validation of every acceptance and trade in runs with price limit rules",
  "C16": "TLA+ halt-rule state machine (TLC, repaired design accepted / as-found design rejected) + TLC trace validation of running flags and fills",
  "C17": "TLA+ weighted-sum lemmas (TLC) + TLC trace validation of index value and index fundamental against components",
+ "C18": "TLA+ decision tables (TLC over all small inheritance graphs) replayed into the real configuration code, outcomes validated by TLC",
 }
 
 def main():
@@ -71,6 +73,8 @@ def main():
         "engines": [
             {"name": "tlc-run", "path": "/verif/spec/PamsRunner.tla", "serves_properties": [p for p in sorted(GROUP_OF) if GROUP_OF[p] == "run"],
              "kind_free_text": "TLA+ run-level specification (PamsRunner, PamsLedger) checked by TLC; TraceLedger / TraceSched / TraceLog / TraceHooks / TraceClock / TraceBook validate runs of the real SequentialRunner recorded through probe subclasses"},
+            {"name": "tlc-table", "path": "/verif/spec/PamsConfig.tla", "serves_properties": [p for p in sorted(GROUP_OF) if GROUP_OF[p] == "table"],
+             "kind_free_text": "TLA+ decision tables (PamsConfig, TableConfig) enumerated by TLC; the same grids are replayed into the real functions and judged by TraceConfig"},
             {"name": "tlc-book", "path": "/verif/spec/PamsMarket.tla", "serves_properties": [p for p in sorted(GROUP_OF) if GROUP_OF[p] == "book"],
              "kind_free_text": "TLA+ specification of one market (PamsOrder, PamsBook, PamsMarketOps, PamsMarket) checked by TLC; TraceBook/TraceCmp validate executions of the real pams.market.Market; TLC -simulate behaviours are replayed into the code"},
         ],
